@@ -327,6 +327,9 @@ std::vector<call_log_entry> g_calls;
 std::map<int, int> g_unregistered;
 // re-entrant use of the signal from inside an unregister callback: set by the runner while a connection is dropped
 std::function<void(int)> g_in_unregister;
+// destruction of ANOTHER connection from inside a callback while the signal is being called: set by the runner
+std::function<void(int)> g_during_call;
+bool g_suppress_reentrant_call = false;
 
 int callback_value(int conn, int arg) { return conn * 7 + arg; }
 int combine(int a, int b) // not commutative, not associative; unsigned arithmetic, no overflow
@@ -374,6 +377,8 @@ struct signal_runner
     Sig &s = *sigs[static_cast<std::size_t>(si)].sig;
     auto cb = [id](int a) {
       g_calls.push_back({id, a});
+      if (g_during_call)
+        g_during_call(id);
       if constexpr (Returns)
         return callback_value(id, a);
     };
@@ -401,7 +406,7 @@ struct signal_runner
     owner[id] = -1;
     if (Unregister && g_unregistered[id] != 0)
       fail("unregister/ran-before-death", "connection " + std::to_string(id));
-    if (Unregister && o >= 0 && sigs[static_cast<std::size_t>(o)].sig && sigs[static_cast<std::size_t>(o)].usable)
+    if (Unregister && !g_suppress_reentrant_call && o >= 0 && sigs[static_cast<std::size_t>(o)].sig && sigs[static_cast<std::size_t>(o)].usable)
       g_in_unregister = [this, o](int) {
         // the dying connection is no longer alive: a call from inside its unregister callback must not invoke it,
         // and the signal's emptiness must already exclude it (the model was updated before the connection is reset)
@@ -417,18 +422,45 @@ struct signal_runner
       fail("unregister/count", "unregister callback of connection " + std::to_string(id) + " ran " +
                                    std::to_string(g_unregistered[id]) + " times at its death, want 1");
   }
-  void call(int si, int arg)
+  // actor >= 0: while the callback of connection `actor` runs it destroys the connection in slot victim_ci (another
+  // one - a connection that destroys ITSELF during the call is outside what the signal supports, see DESIGN.md 9.2).
+  // Expected: a connection destroyed before the call reaches it is not invoked, every other one once, in order.
+  void call(int si, int arg, int actor = -1, int victim_ci = -1)
   {
     Sig &s = *sigs[static_cast<std::size_t>(si)].sig;
-    auto const &m = ms[static_cast<std::size_t>(si)];
+    std::vector<int> const m = ms[static_cast<std::size_t>(si)];
     g_calls.clear();
     std::vector<call_log_entry> want;
     int wantv = 1000 + arg;
+    int const victim_id = victim_ci >= 0 ? conn_id[static_cast<std::size_t>(victim_ci)] : -1;
+    bool victim_dead = false;
     for (int id : m)
     {
+      if (id == victim_id && victim_dead)
+        continue;
       want.push_back({id, arg});
       wantv = combine(wantv, callback_value(id, arg));
+      if (id == actor)
+        victim_dead = true;
     }
+    if (actor >= 0)
+    {
+      bool done = false;
+      g_during_call = [this, actor, victim_ci, done](int id) mutable {
+        if (id != actor || done)
+          return;
+        done = true;
+        g_suppress_reentrant_call = true;
+        std::vector<call_log_entry> const saved = g_calls;
+        drop(victim_ci);
+        g_calls = saved;
+        g_suppress_reentrant_call = false;
+      };
+    }
+    struct reset_hook
+    {
+      ~reset_hook() { g_during_call = nullptr; }
+    } reset_hook_guard;
     if constexpr (Returns)
     {
       int got = s(typename Sig::initial_value{1000 + arg}, arg);
@@ -446,7 +478,8 @@ struct signal_runner
         ws += std::to_string(c.conn) + " ";
       fail("call/callback-sequence", "invoked connections [" + gs + "] want [" + ws + "]");
     }
-    if (s.empty() != m.empty())
+    g_during_call = nullptr;
+    if (s.empty() != ms[static_cast<std::size_t>(si)].empty())
       fail("call/empty", "empty() disagrees");
     vf::count_max("max/signal/connections-called", m.size());
     vf::count("signal/callbacks-invoked", g_calls.size());
@@ -504,7 +537,29 @@ struct signal_runner
         {
           int arg = static_cast<int>(g.below(5));
           vf::extend_case(" call(S%d,%d)", si, arg);
-          opn = ms[static_cast<std::size_t>(si)].empty() ? "call-empty" : (ms[static_cast<std::size_t>(si)].size() > 2 ? "call-three-or-more" : "call-one-or-two");
+          auto const &cur = ms[static_cast<std::size_t>(si)];
+          opn = cur.empty() ? "call-empty" : (cur.size() > 2 ? "call-three-or-more" : "call-one-or-two");
+          // in a third of the calls on two or more connections one callback destroys another connection of this signal
+          if (cur.size() >= 2 && g.chance(1, 3))
+          {
+            std::size_t const ai = g.below(cur.size());
+            std::size_t vi = g.below(cur.size() - 1);
+            if (vi >= ai)
+              ++vi;
+            int victim_slot = -1;
+            for (int c = 0; c < NC; ++c)
+              if (conns[static_cast<std::size_t>(c)].has_value() && conn_id[static_cast<std::size_t>(c)] == cur[vi])
+                victim_slot = c;
+            if (victim_slot >= 0)
+            {
+              char const *rel = vi == ai + 1 ? "next" : vi > ai ? "later" : vi + 1 == ai ? "previous" : "earlier";
+              vf::extend_case("[callback %zu destroys %s connection %zu]", ai, rel, vi);
+              vf::count(std::string("signal/call/callback-destroys-") + rel + "-connection", 1);
+              int const actor_id = cur[ai];
+              call(si, arg, actor_id, victim_slot);
+              break;
+            }
+          }
           call(si, arg);
         }
         break;
@@ -651,7 +706,8 @@ void body()
         "signal/op/connect", "signal/op/drop-connected", "signal/op/drop-orphaned", "signal/op/call-three-or-more",
         "signal/op/signal-move-ctor-with-connections", "signal/op/signal-move-assign-nonempty-to-nonempty",
         "signal/op/signal-move-assign-empty-to-nonempty", "signal/op/destroy-signal-before-connections",
-        "signal/callbacks-invoked", "signal/reentrant-calls-from-unregister"})
+        "signal/callbacks-invoked", "signal/reentrant-calls-from-unregister", "signal/call/callback-destroys-next-connection",
+        "signal/call/callback-destroys-later-connection", "signal/call/callback-destroys-previous-connection", "signal/call/callback-destroys-earlier-connection"})
     vf::require_bucket(b);
   std::uint64_t total = vf::tier<std::uint64_t>(30000, 4000000);
   if (vf::has_extra("--small")) // the memcheck pass
